@@ -261,7 +261,8 @@ pub fn stream_family(level: u32) -> Vec<Script> {
         out.push(Script { family: "STREAM".into(), name: sname(&["STREAM", "recursive-visit", p0, p1, "seq"]), ast, peers: peers3() });
     }
     out.extend(route_family(level));
-    out.extend(mix_family(level));
+    // development aid: VERIF_MIX_LEVEL=1 explores the thorough variants of the mix family in a quick run
+    out.extend(mix_family(level.max(std::env::var("VERIF_MIX_LEVEL").ok().and_then(|v| v.parse().ok()).unwrap_or(0))));
     // a stream derived from another one inside a fold (`ap i $t`), then folded itself with a call chain per value:
     // the positions of the ap entries depend on the local order of $s, which differs between peers
     for (p1, p2) in [("A", "B"), ("B", "C"), ("B", "A")] {
